@@ -9,6 +9,12 @@ The caller's side (Network.tla: bufs, DiscoverServicesBuf, CallerMutates): disco
 replay hands it real collection objects that stay with the caller (set, set subclass, list, dict, a MutableSet, a
 generator, a hand-made one-shot iterator - the specification does not distinguish them), the same object for several
 peers, and changes them in place afterwards: the graph must neither keep them nor write to them.
+Removal (Network.tla: RemovePeer(p, pa), adv, HistoryAgrees, RemovedIsClean): remove_peer is called with the stored object
+of a verified peer (pa = 0) and with ANOTHER Peer object of the key at any address - for verified peers and for peers that
+are not verified but may have advertised services before (services_per_peer has entries for them).  The history variable
+adv (what was handed to discover_services for a peer since it was last removed) must equal services_per_peer after every
+call, and peers-per-service / walkable-per-service must be what adv implies: a peer that advertised, was removed and is
+added again advertises nothing.
 What is only reported (impl_layer_drift): the contents of the by-key index and of the three LRU caches, and the
 answer of get_introductions_from (outside the statement of the property)."""
 from __future__ import annotations
@@ -30,7 +36,11 @@ JAVA_OPTS = ("-XX:TieredStopAtLevel=1",)     # quick tier: every TLC run is shor
 QUERIES = {"GetByAddress", "GetByKey", "GetPeersForService", "GetWalkable", "GetIntroductionsFrom", "Snapshot"}
 STRICT = ("verified", "addrOf", "services", "all", "bufs")
 LENIENT = ("byKey", "ipCache", "introCache", "svcCache")
-INVS = ["TypeOK", "LookupsAgree", "HistoryAgrees", "BlacklistedNeverVerified", "SnapshotRoundTrip"]
+INVS = ["TypeOK", "LookupsAgree", "AdvertisedSinceRemoval", "BlacklistedNeverVerified", "SnapshotRoundTrip"]
+# HistoryAgrees = AdvertisedSinceRemoval + the per-service lookups computed from the history variable: follows from
+# LookupsAgree and AdvertisedSinceRemoval; evaluated as such in the universes below and on every recorded history
+INVS_FULL = ["TypeOK", "LookupsAgree", "HistoryAgrees", "BlacklistedNeverVerified", "SnapshotRoundTrip"]
+FULL_HISTORY_IN = ("small_2x2x1", "own_2x1x2")
 PROPS = ["QueriesPure", "RemovedIsGone", "RemovedIsClean", "ReAddWorks", "ArgumentsNotRetained", "OnlyTheNamedPeer",
          "CallerKeepsItsCollection"]
 ALL_ACTIONS = ["AddVerified", "DiscoverAddress", "DiscoverServices", "RemoveByAddress", "RemovePeer", "LoadSnapshot",
@@ -678,7 +688,8 @@ def job_dump(tmp, c, tag):
 
 def job_check(c, tag, tmp, workers):
     """The model with every invariant and action property checked (depth kept in the view: exact with any workers)."""
-    cfg = make_cfg(os.path.join(tmp, tag + "-m.cfg"), c, view="NoRetOp")
+    cfg = make_cfg(os.path.join(tmp, tag + "-m.cfg"), c, view="NoRetOp",
+                   invariants=INVS_FULL if tag in FULL_HISTORY_IN else INVS)
     r = run_tlc("Network.tla", cfg, timeout=7200, workers=workers, java_opts=JAVA_OPTS)
     if not r.ok:
         raise MachineryError("Network.tla (%s): TLC reports %s on the specification itself" % (tag, r.violated))
@@ -832,7 +843,7 @@ def replay_graph(ctx, c, tag, seed, dot, max_ops=None, report=True, network_cls=
 # binding R (2): TLC -simulate behaviours (deeper than the exhaustive bound) replayed as they are
 # ---------------------------------------------------------------------------------------------------
 def job_simulate(tmp, c, tag, seed, num, depth):
-    cfg = make_cfg(os.path.join(tmp, tag + "-s.cfg"), c, props=[])
+    cfg = make_cfg(os.path.join(tmp, tag + "-s.cfg"), c, props=[], invariants=INVS_FULL)
     d = os.path.join(tmp, tag + "-sim")
     os.mkdir(d)
     r = run_tlc("Network.tla", cfg, simulate="file=%s,num=%d" % (os.path.join(d, "b"), num), depth=depth, seed=seed + 1,
@@ -1027,7 +1038,7 @@ def job_trace(tmp, traces, name, invariants=("TraceAccepted",)):
     with open(path, "w", encoding="utf-8") as f:
         json.dump(traces, f)
     cfg = make_cfg(os.path.join(tmp, name + ".cfg"), TRACE_C, spec="TraceSpec", props=[],
-                   invariants=list(invariants) + INVS)
+                   invariants=list(invariants) + INVS_FULL)
     r = run_tlc("NetworkTrace.tla", cfg, env={"TRACE_FILE": path}, coverage=False, workers=4, timeout=7200,
                 java_opts=JAVA_OPTS)
     os.unlink(path)
@@ -1208,14 +1219,16 @@ def run(tier, seed, replay=None):
     ctx = Ctx(PID, tier, seed, "model_checking")
     ctx.cov["rule"] = ("TLC enumerates every sequence of Network calls (add_verified_peer, discover_address, "
                        "discover_services - with fresh lists and with collections the caller keeps, re-uses and changes - "
-                       "remove_peer, remove_by_address, load_snapshot and the six lookups) over small "
+                       "remove_peer - with the stored object and with another object of the key, of verified and of not "
+                       "verified peers -, remove_by_address, load_snapshot and the six lookups) over small "
                        "universes up to the depth bound; every (state, call) pair of the dumped graphs is executed on "
                        "the real Network with real Peer objects and the abstract state and the returned value compared "
                        "with the TLC successor state; non-trivial = distinct replayed histories (graph walks, simulated "
                        "behaviours) and distinct recorded histories accepted by TLC")
     ctx.assumptions += ["single-threaded use of Network (graph_lock not exercised)",
-                        "every call that takes a Peer is made with a fresh Peer object carrying one address, except "
-                        "remove_peer which gets the stored object",
+                        "every call that takes a Peer is made with a fresh Peer object carrying one address; remove_peer "
+                        "gets the stored object of a verified peer or a fresh Peer object of any key (verified or not) "
+                        "at any address",
                         "the caller's collections handed to discover_services are realised as set, set subclass, list, "
                         "dict, a MutableSet that is no set, a generator and a hand-made one-shot iterator; objects "
                         "RETURNED by the graph (get_services_for_peer, the lists of peers) are not changed by the caller",
